@@ -1,2 +1,23 @@
-(* C17 - statements only (proofs pending). *)
-From N2 Require Import Model.All.
+(* C17 - statements only.  The orchestration model is thin; the weight of this property is on the
+   acceptance of the real traces (regeneration phase, reload, reuse) by the Sched and World models. *)
+From N2 Require Import Model.All Model.Build Proofs.BuildProps.
+
+Theorem C17_failure_stops : forall (W G : Type) (load : W -> outcome G) (regen : G -> W -> W * option bool * nat) (main : G -> bool -> W -> W * option bool * nat) w0 g0 w1 r1 t1, load w0 = Ok g0 -> regen g0 w0 = (w1, r1, t1) -> r1 <> Some true -> bt_main_on (build load regen main w0) = None /\ bt_world (build load regen main w0) = w1 /\ (forall n, bt_result (build load regen main w0) <> BOk n).
+Proof. exact (@regen_failure_stops). Qed.
+Print Assumptions C17_failure_stops.
+
+Theorem C17_reload_uses_new_text : forall (W G : Type) (load : W -> outcome G) (regen : G -> W -> W * option bool * nat) (main : G -> bool -> W -> W * option bool * nat) w0 g0 w1 t1 gm reuse, load w0 = Ok g0 -> regen g0 w0 = (w1, Some true, S t1) -> bt_main_on (build load regen main w0) = Some (gm, reuse) -> load w1 = Ok gm /\ reuse = false.
+Proof. exact (@reload_uses_new_world). Qed.
+Print Assumptions C17_reload_uses_new_text.
+
+Theorem C17_reload_error_stops : forall (W G : Type) (load : W -> outcome G) (regen : G -> W -> W * option bool * nat) (main : G -> bool -> W -> W * option bool * nat) w0 g0 w1 t1, load w0 = Ok g0 -> regen g0 w0 = (w1, Some true, S t1) -> (forall g, load w1 <> Ok g) -> bt_result (build load regen main w0) = BError /\ bt_main_on (build load regen main w0) = None.
+Proof. exact (@reload_error_stops). Qed.
+Print Assumptions C17_reload_error_stops.
+
+Theorem C17_no_regen_when_clean : forall (W G : Type) (load : W -> outcome G) (regen : G -> W -> W * option bool * nat) (main : G -> bool -> W -> W * option bool * nat) w0 g0 w1, load w0 = Ok g0 -> regen g0 w0 = (w1, Some true, 0) -> bt_main_on (build load regen main w0) = Some (g0, true).
+Proof. exact (@no_regen_reuses). Qed.
+Print Assumptions C17_no_regen_when_clean.
+
+Theorem C17_tasks_sum : forall (W G : Type) (load : W -> outcome G) (regen : G -> W -> W * option bool * nat) (main : G -> bool -> W -> W * option bool * nat) w0 n, bt_result (build load regen main w0) = BOk n -> exists g0 w1 t1 gm reuse w2 t2, load w0 = Ok g0 /\ regen g0 w0 = (w1, Some true, t1) /\ bt_main_on (build load regen main w0) = Some (gm, reuse) /\ main gm reuse w1 = (w2, Some true, t2) /\ n = t1 + t2.
+Proof. exact (@tasks_sum). Qed.
+Print Assumptions C17_tasks_sum.
